@@ -490,6 +490,7 @@ class SimRLock:
         self.depth = 0
         self.label = label
         self.contended = 0
+        self.expired = 0
 
     def __repr__(self) -> str:
         return f"<Sim{'R' if self.reentrant else ''}Lock {self.label}>"
@@ -515,6 +516,12 @@ class SimRLock:
             if s is None or not isinstance(me, SimThread):
                 raise RuntimeError(f"{self!r}: contended outside the simulator")
             self.contended += 1
+            if timeout is not None and timeout >= 0 and self.contended % 2:
+                # a bounded wait: the simulated clock belongs to the simulator, and the holder may be stalled for
+                # longer than any finite timeout (fault: slow thread).  Every other contended bounded wait expires
+                # at once (a pure function of the lock's history, so replays agree); the others wait as usual.
+                self.expired += 1
+                return False
             me.state = "blocked"
             me.waiting_on = self
             s.forced_switch(me)
